@@ -180,6 +180,27 @@ fn families(thorough: bool) -> Vec<Family> {
     }
     let nu = uni.len();
     v.push(Family { name: "Unicode whitespace/newline characters in structural contexts".into(), size: nu, gen: Box::new(move |i| uni[i].clone()) });
+    // numeric literals at the limits of every integer width, wherever the formatter reads or reprints a number
+    // (the column count of a table steers its layout)
+    let nums = [
+        "0", "1", "2", "3", "7", "255", "256", "65535", "65536", "1000000", "2147483647", "2147483648", "4294967295", "4294967296", "1000000000000",
+        "9007199254740993", "9223372036854775807", "9223372036854775808", "18446744073709551615", "18446744073709551616",
+        "99999999999999999999999999999", "-1", "-9223372036854775808", "1e308", "1e309", "1e-400", "1.5", "2.0", "00", "007", "0x7fffffffffffffff",
+        "0xffffffffffffffff", "0b1111111111111111111111111111111111111111111111111111111111111111", "0o7", "1.", ".5", "1e3", "1_000",
+    ];
+    let spots = [
+        "#table(columns: §, [a], [b], [c])", "#grid(columns: §, [a], [b])", "#table(columns: (§,), [a])", "#table(columns: §)", "#table(columns: §, table.header[a], [b])",
+        "#table(columns: 2, rows: §, [a], [b])", "#table(§, [a], [b])", "#table(columns: §, ..c)", "$mat(1, 2; 3, §)$", "#let v = §", "$§$", "#f(§)", "#(§).f", "#enum(start: §)[a]",
+        "§. a", "#h(§pt)", "#(§em, §%)", "#range(§)", "#a.at(§)", "#(§ + §)", "#g(columns: §)[a]", "foo § bar", "#table(columns: §, [a], [b]) foo",
+    ];
+    let mut numeric = vec![];
+    for sp in spots {
+        for n in nums {
+            numeric.push(sp.replace('§', n));
+        }
+    }
+    let nn = numeric.len();
+    v.push(Family { name: "numeric literals at integer-width limits wherever the formatter reads or reprints a number".into(), size: nn, gen: Box::new(move |i| numeric[i].clone()) });
     v
 }
 
@@ -360,7 +381,7 @@ pub fn run(tier: &str, seed: u64) -> i32 {
     let start = Instant::now();
     let thorough = tier == "thorough";
     let fams = families(thorough);
-    let wall_cap = Duration::from_secs(std::env::var("VERIF_WALL_CAP_S").ok().and_then(|s| s.parse().ok()).unwrap_or(if thorough { 20 * 60 } else { 50 }));
+    let wall_cap = Duration::from_secs(std::env::var("VERIF_WALL_CAP_S").ok().and_then(|s| s.parse().ok()).unwrap_or(if thorough { 20 * 60 } else { 300 }));
     let pool = std::thread::available_parallelism().map(|n| n.get()).unwrap_or(8);
     let chunk = 20_000usize;
     let mut jobs: Vec<(usize, usize, usize)> = vec![];
